@@ -43,4 +43,12 @@ for _fs in (8000, 12000, 16000, 24000, 48000):
                  'state invariant settings_ok/stream_ok assumed at entry (re-established at exit: asserted)'],
         bounds='Fs = %d, every legal frame duration, any encoder state satisfying the invariant, any buffer size <= 4000; all loops unwound completely (<= 8 iterations, unwinding assertions on)' % _fs,
         what='decision chain of opus_encode_native: forced channels/bandwidth/mode honoured at the frame coder, durations add up, user settings untouched'))
+_EI = dict(cls='P', tu='C11_enc_init.c', dfcc=False, canary='real', unwind=2, timeout=900, mem_gb=16, cex=False, defines=['-U__SSE__'],
+           trusted=['stubs of silk_Get_Encoder_Size / celt_encoder_get_size (fixed sizes), silk_InitEncoder / celt_encoder_init (succeed or fail, write only their own sub-state: extent asserted), celt_encoder_ctl, tonality_analysis_init'])
+GROUPS += [
+ dict(_EI, name='enc_init', entry='h_enc_init', expect_canaries=2, functions=['opus_encoder_init', 'opus_encoder_get_size'], cbmc_flags=['--object-bits', '10', '--no-array-field-sensitivity'],
+      what='opus_encoder_init / get_size for every (Fs, channels, application): rejection of unsupported arguments, sub-state layout, documented defaults, encoder invariant established'),
+ dict(_EI, name='enc_create', entry='h_enc_create', expect_canaries=2, functions=['opus_encoder_create', 'opus_encoder_destroy', 'opus_encoder_init'],
+      cbmc_flags=['--object-bits', '10', '--no-array-field-sensitivity', '--malloc-may-fail', '--malloc-fail-null', '--memory-leak-check'], what='opus_encoder_create: bad arguments, failing sub-initialiser, allocation failure, no leak'),
+]
 META = {}
